@@ -183,8 +183,9 @@ Definition sx_result (r : result) : sx :=
       SL (sx_sort (map (fun e => SL [SI (gid_index tree order (e_from e)); SI (gid_index tree order (e_to e));
                                      sx_gkey g (e_from e); sx_gkey g (e_to e); SB (e_req e); sx_attrs (e_type e)])
                        (g_edges g)));
+      (* node errors: the node and the requirement; the error text (kind) is not compared *)
       SL (sx_sort (map (fun e => SL [SI (gid_index tree order (ne_node e)); sx_gkey g (ne_node e);
-                                     sx_vkey (ne_req e); SI (Z.of_N (ne_kind e))])
+                                     sx_vkey (ne_req e)])
                        (g_errors g)));
       SL (map SB (r_gerror r))].
 
